@@ -231,7 +231,8 @@ def check_placement(eng, walk, mol_idx, node, p, prev, q, is_start):
             if abs(sig2 - sig) > 1e-9:
                 V.append(("pair-size-wrong", "engine pair size %r, mean of residue sizes %r" % (sig, sig2)))
             sig = sig2
-        step = walk.step_fudge * sig
+        fudge = CTX.get("requested", {}).get("step_fudge", walk.step_fudge)
+        step = fudge * sig
         d = p - q
         ok = False
         for nvec in itertools.product((-1, 0, 1), repeat=3):
@@ -245,7 +246,7 @@ def check_placement(eng, walk, mol_idx, node, p, prev, q, is_start):
             mi = step if ok else mi
         if not ok or abs(mi - step) > 1e-9 * max(1.0, step):
             V.append(("step-length-wrong", "residue %s grown from %s: minimum-image distance %r, step length %r (factor %r x size %r)" %
-                      (node, prev, mi, step, walk.step_fudge, sig)))
+                      (node, prev, mi, step, fudge, sig)))
         if np.linalg.norm(d) > step * (1 + 1e-9):
             stat("placements_wrapped")
     # neighbours
@@ -273,13 +274,14 @@ def check_placement(eng, walk, mol_idx, node, p, prev, q, is_start):
             continue
         sig, eps = eng.interaction_matrix[frozenset([my_t, eng.atypes[gi]])]
         F += 24 * eps / dist * (2 * (sig / dist) ** 12 - (sig / dist) ** 6) * v / dist
-    ratio = float(np.linalg.norm(F) / walk.max_force)
+    max_force = CTX.get("requested", {}).get("max_force", walk.max_force)
+    ratio = float(np.linalg.norm(F) / max_force)
     stat("max_force_ratio", ratio)
     if np.linalg.norm(F) > 0:
         stat("placements_with_force")
     if ratio > 1 + 1e-6:
         V.append(("force-above-limit", "residue (%d,%s) accepted with soft-sphere force %.4g > max force %.4g" %
-                  (mol_idx, node, np.linalg.norm(F), walk.max_force)))
+                  (mol_idx, node, np.linalg.norm(F), max_force)))
 
 
 def run_gen_coords(ctx_kw=None, **kwargs):
@@ -287,6 +289,11 @@ def run_gen_coords(ctx_kw=None, **kwargs):
     from polyply import gen_coords
     from vermouth.file_writer import DeferredFileWriter
     new_ctx(**(ctx_kw or {}))
+    # what the caller asked for (the defaults of the program where nothing is said): the limits are the user's,
+    # not whatever value reaches the random walk
+    import inspect
+    sigp = inspect.signature(gen_coords).parameters
+    CTX["requested"] = {k: kwargs.get(k, sigp[k].default) for k in ("max_force", "step_fudge") if k in sigp}
     handler = LogCapture()
     logger = logging.getLogger("polyply")
     logger.addHandler(handler)
